@@ -187,6 +187,10 @@ def run_http(spec, plan, want_fp=False, workdir=None):
                 o['closed'] = net.conns[ci].client_closed if net.conns else None
                 if o['error']:
                     break
+                if spec.get('pause_between') and i + 1 < len(exchanges):
+                    # the client is idle for a moment between two requests: whatever the
+                    # server has already sent (surplus!) arrives before the next request
+                    yield from env.gate('between:%d' % i)
             return 'finished'
 
         task = loop.create_task(client_task())
@@ -248,6 +252,10 @@ def run_http(spec, plan, want_fp=False, workdir=None):
                     result = 'stopped'
                     break
                 eofs[0].deliver_eof()
+                continue
+            gates = [l for l in env.enabled() if l.startswith('between:')]
+            if gates:
+                env.fire(gates[0])
                 continue
             if loop.next_timer() is not None:
                 loop.fire_next_timer()
